@@ -10,7 +10,7 @@ git -C $WT apply $P || { echo "PATCH DOES NOT APPLY"; exit 3; }
 (cd $WT && PYTHONPATH=$WT PYTHONDONTWRITEBYTECODE=1 /venv/bin/python -m pytest -q -p no:cacheprovider 2>&1 | tail -1)
 OUT=/tmp/seedout-$$; mkdir -p $OUT
 for c in "$@"; do
-  out=$(cd /verif && VERIF_REPO=$WT VERIF_OUT_DIR=$OUT ./check $c --tier ${TIER:-quick} 2>&1); rc=$?
+  out=$(cd ${VDIR:-/verif} && VERIF_REPO=$WT VERIF_OUT_DIR=$OUT ./check $c --tier ${TIER:-quick} 2>&1); rc=$?
   echo "check $c exit=$rc :: $(echo "$out" | grep -E '^(VIOLATION|KNOWN|HARNESS|RESULT)' | head -3 | tr '\n' '|')"
   echo "$out" | grep -E 'fingerprint' | head -3
 done
